@@ -188,14 +188,21 @@ def build_record(spec):
         pfam_hits = []
         # value menu: the first gene's hit sits on every "falsy" boundary (protein start 0, e-value 0.0 as HMMer reports for
         # very strong hits, score 0.0), the second gene's hit carries ordinary values
-        for gene, (start, end, evalue, score) in zip(_long_genes(rec.get_cds_features()), [(0, 7, 0.0, 0.0), (2, 9, 1e-10, 55.5)]):
+        # identifiers: PF00067 has four GO terms listed in ascending order in the pfam2go mapping, PF00048 three in another order
+        for gene, (start, end, evalue, score, ident) in zip(_long_genes(rec.get_cds_features()),
+                                                            [(0, 7, 0.0, 0.0, "PF00067.1"), (2, 9, 1e-10, 55.5, "PF00048.2")]):
             loc = gene.get_sub_location_from_protein_coordinates(start, end)
             pfam_hits.append(hmmer.HmmerHit(location=str(loc), label="PFtest", locus_tag=gene.get_name(), domain="p450",
-                                            evalue=evalue, score=score, identifier="PF00067.1", description="a domain",
+                                            evalue=evalue, score=score, identifier=ident, description="a domain",
                                             protein_start=start, protein_end=end, translation=gene.translation[start:end]))
         hmmer.HmmerResults(rec.id, 0.01, 10.0, "/nonexistent/pfam/31.0/Pfam-A.hmm", "fullhmmer", pfam_hits).add_to_record(rec)
+        # the real pfam2go module (pure Python, its mapping file is part of the repository) attaches the GO terms
+        from antismash.modules.pfam2go import pfam2go  # pylint: disable=import-outside-toplevel
+        pfam2go.Pfam2GoResults(rec.id, pfam2go.get_gos_for_pfams(rec)).add_to_record(rec)
     if "nrps" in extras and rec.get_cds_features_within_regions():
         nrps_results(rec).add_to_record(rec)
+    if "nrps-double" in extras and "nrps" not in extras and rec.get_cds_features_within_regions():
+        nrps_results(rec, "double").add_to_record(rec)
     if "prepeptide" in extras:
         gene = rec.get_cds_features()[0]
         total = len(gene.location) // 3
@@ -235,11 +242,15 @@ def _long_genes(genes):
     return [g for g in genes if len(g.translation) >= 18][:2]
 
 
-def nrps_results(rec):
-    """real generate_domains with the three HMMER look-ups replaced by fixed tables (harness instrumentation)"""
+def nrps_results(rec, variant=None):
+    """real generate_domains with the three HMMER look-ups replaced by fixed tables (harness instrumentation);
+    variant 'double': a module with two carrier proteins followed by the listed look-ahead pair and a terminating domain"""
     genes = [g.get_name() for g in _long_genes(rec.get_cds_features_within_regions())]
     table = {}
-    if genes:
+    if genes and variant == "double":
+        names = ["PKS_KS", "PKS_AT", "ACP", "ACP", "LPG_synthase_C", "Beta_elim_lyase", "Thioesterase"]
+        table[genes[0]] = [HMMResult(name, 1 + 2 * i, 3 + 2 * i, 1e-9, 40.0 + i) for i, name in enumerate(names)]
+    elif genes:
         table[genes[0]] = [HMMResult("PKS_KS", 0, 5, 1e-9, 40.0), HMMResult("PKS_AT", 6, 11, 1e-9, 41.0), HMMResult("ACP", 12, 17, 0.0, 42.0)]
         table[genes[0]][0].add_internal_hits([HMMResult("Trans-AT-KS", 0, 5, 1e-8, 30.0)])
     if len(genes) > 1:
@@ -321,7 +332,7 @@ def _parent_number(proto):
         return "stale"
 
 
-EXTRAS_MENU = ["pfam", "nrps", "prepeptide", "tta", "misc", "gene", "source", "cdsnote", "prepeptide-plain", "smiles"]
+EXTRAS_MENU = ["pfam", "nrps", "prepeptide", "tta", "misc", "gene", "source", "cdsnote", "prepeptide-plain", "smiles", "nrps-double"]
 
 
 def specs(tier):
